@@ -98,7 +98,10 @@ def main(argv=None):
                     continue
                 logf.close()
                 if rc != 0 or not out.exists():
-                    tail = (tmp / f"shard{sh}.log").read_bytes()[-1500:].decode("utf8", "replace")
+                    try:
+                        tail = (tmp / f"shard{sh}.log").read_bytes()[-1500:].decode("utf8", "replace")
+                    except OSError as e:  # the scratch directory was removed under the run
+                        tail = f"<shard log unreadable: {e}>"
                     inconclusive.append(f"shard {sh}: worker exit {rc}: {tail}")
                 else:
                     results[sh] = json.loads(out.read_text())
@@ -172,7 +175,7 @@ def finish(prop, tier, seed, nshards, mod, results, inconclusive, t0, is_replay)
     replay_paths = []
     if outdir.exists() and not is_replay:
         for old in outdir.glob(f"{tier}-seed{seed}-*.json"):
-            old.unlink()
+            old.unlink(missing_ok=True)
     if unknown:
         outdir.mkdir(parents=True, exist_ok=True)
         for i, v in enumerate(unknown[:20]):
